@@ -253,6 +253,7 @@ def setup(c):
         pn = [p for p in inspect.signature(fn).parameters if p != 'N']
         install.contract('spectrum.window', g, make_post(g, pn))
     install.contract('spectrum.window', 'enbw', post_enbw)
+    reach.cover(c, {'create_window': W.create_window})
 
 
 GRIDS = {
